@@ -117,7 +117,7 @@ func (c RawConfiguration) CorrectableCall(ctx context.Context, d CorrectableCall
 		n.channel.enqueue(request{ctx: ctx, msg: &Message{Metadata: md, Message: msg}}, replyChan, d.ServerStream)
 	}
 
-	corr := &Correctable{donech: make(chan struct{}, 1)}
+	corr := &Correctable{level: LevelNotSet, donech: make(chan struct{}, 1)}
 
 	go c.handleCorrectableCall(ctx, corr, correctableCallState{
 		md:              md,
@@ -178,14 +178,12 @@ func (c RawConfiguration) handleCorrectableCall(ctx context.Context, corr *Corre
 			}
 			replies[r.nid] = r.msg
 			if resp, rlevel, quorum = state.data.QuorumFunction(state.data.Message, replies); quorum {
-				if quorum {
-					corr.set(r.msg, rlevel, nil, true)
-					return
-				}
-				if rlevel > clevel {
-					clevel = rlevel
-					corr.set(r.msg, rlevel, nil, false)
-				}
+				corr.set(resp, rlevel, nil, true)
+				return
+			}
+			if rlevel > clevel {
+				clevel = rlevel
+				corr.set(resp, rlevel, nil, false)
 			}
 		case <-ctx.Done():
 			corr.set(resp, clevel, QuorumCallError{cause: ctx.Err(), errors: errs, replies: len(replies)}, true)
